@@ -50,7 +50,7 @@ partial def diag (outer : List Schema) (p : Plan) : List String :=
   | .limit _ _ i => diag outer i
   | .distinct i => diag outer i
   | .union _ s inputs => inputs.flatMap (diag outer) ++ (inputs.filterMap fun q => if (outSchema q).length != s.length then some s!"Union: input emits {(outSchema q).length} columns, union has {s.length}" else none)
-  | .alias n _ s i => diag outer i ++ (if (outSchema i).length != s.length then [s!"SubqueryAlias {n}: input emits {sch i}, alias schema has {s.length}"] else [])
+  | .alias _ _ _ i => diag outer i
   | .delimJoin _ _ _ _ _ l r => diag outer l ++ diag outer r
   | .vsearch _ _ _ _ _ s i => diag outer i ++ (if (outSchema i).length != s.length then ["VectorSearch: arity"] else [])
   | _ => []
@@ -121,10 +121,15 @@ def handler : Driver.Handler := fun c i => do
     if let some f := jf.fail then fails := fails ++ [f]
     if let some pl := pf then planOf := planOf ++ [("final", pl)]
     let traceAgrees := (Driver.getBool i "trace_agrees").toOption.getD false
-    -- K: what the wf model predicts about running the plans against what happened
+    -- K: what the wf model predicts about running the plans against what happened.  The baseline is the bound plan's own run:
+    -- when the UNOPTIMIZED plan already fails with ColumnNotFound the defect is in the binder / an operator, not in a rule,
+    -- and the case says nothing about the rules (tag `bound_run_cnf`).
+    let runs := (← Driver.getArr i "runs").toList
+    let boundCnf := runs.any (fun run => (Driver.getStr run "of").toOption == some "bound" &&
+      ((Driver.getObj run "out").toOption.bind (fun o => (o.getObjValAs? String "err").toOption)) == some "column_not_found")
     let mut kOk := true
     let mut kNotes : List Json := []
-    for run in (← Driver.getArr i "runs").toList do
+    for run in runs do
       let which ← Driver.getStr run "of"
       let out ← Driver.getObj run "out"
       match planOf.lookup which with
@@ -132,20 +137,18 @@ def handler : Driver.Handler := fun c i => do
       | some pl =>
         let errKind := (out.getObjValAs? String "err").toOption
         let cnf := errKind == some "column_not_found"
-        if cnf && wf pl then
+        if cnf && wf pl && !boundCnf then
           kOk := false
-          kNotes := kNotes ++ [Json.mkObj [("run", which), ("problem", "ColumnNotFound at run time although the checker accepts the plan")]]
+          kNotes := kNotes ++ [Json.mkObj [("run", which), ("problem", "ColumnNotFound at run time although the checker accepts the plan and the unoptimized plan runs")]]
         if let .ok w := out.getObjValAs? Nat "width" then
           if w != (outSchema pl).length then
             kOk := false
             kNotes := kNotes ++ [Json.mkObj [("run", which), ("problem", s!"result has {w} columns, the model's output schema {(outSchema pl).length}")]]
         tags := tags ++ [match errKind with | some k => s!"run_err:{k}" | none => if (out.getObjVal? "panic").toOption.isSome then "run_panic" else "run_ok"]
+    if boundCnf then tags := tags ++ ["bound_run_cnf"]
     let changedAny := tags.any (fun t => t.endsWith ":alone_fired" || t.endsWith ":step_fired")
     let model := Json.mkObj ([("bound_wf", Json.bool true), ("steps", Json.num (JsonNumber.fromNat nsteps)), ("trace_agrees", Json.bool traceAgrees), ("k_notes", Json.arr kNotes.toArray)] ++ modelItems)
-    -- known finding C31-F1 (= C29's): the greedy fallback's score overflows on a relation with statistics row_count 0
-    let overflow := !fails.isEmpty && fails.all (fun f => (f.splitOn "attempt to multiply with overflow").length > 1)
-    let attr := if overflow then some "C31-F1" else none
-    pure { model := model, k := kOk, oracle := fails.head?, nt := changedAny, attr := attr,
-           tags := tags.eraseDups ++ (if traceAgrees then [] else ["trace_differs"]) ++ (if attr.isSome then ["attr_C31-F1"] else []) }
+    pure { model := model, k := kOk, oracle := fails.head?, nt := changedAny,
+           tags := tags.eraseDups ++ (if traceAgrees then [] else ["trace_differs"]) }
 
 end Driver.C31
